@@ -72,7 +72,7 @@ class Implicit(Unit):
             act = [g.rng.random() < 0.4 for _ in range(nv)]
             cases.append({"spec": spec.to_json(), "sc": sc, "trans": trans, "xh": xh, "yh": yh, "dt": dt, "rho": rho,
                           "x": x, "y": y, "tau": tau, "act": act, "fmt": g.rng.choice(["coo", "csr", "csc"]),
-                          "active_tol": g.rng.choice([None, None, 0.5, 1.0])})
+                          "active_tol": g.rng.choice([None, None, 0.5, 1.0]), "warm": k % 2 == 1})
         return cases
 
     def impl(self, case):
@@ -86,6 +86,14 @@ class Implicit(Unit):
         act = np.array(case["act"], dtype=bool)
         rho = case["rho"]
         bl = lambda a: [bool(b) for b in a]
+        if case.get("warm"):
+            # the same function objects have already been used at another point (the Newton loop and the line search
+            # do exactly that): what they return depends on the point asked for, not on the history
+            for fn in (f, sf):
+                fn.compute_active_set(orig, rho, case["tau"])
+                fn.compute_active_set(orig, rho)
+                fn.value_at(orig, rho)
+                fn.deriv_at(orig, rho)
         return {"active": bl(f.compute_active_set(it, rho, case["tau"])),
                 "sactive": bl(sf.compute_active_set(it, rho, case["tau"])),
                 "value": fl(f.value_at(it, rho, act)), "svalue": fl(sf.value_at(it, rho, act)),
@@ -207,6 +215,10 @@ class Newton(Unit):
             if r.random() < 0.4:
                 dt = dt * 4.0
                 rho = rho * 4.0
+            if not trans and spec.m > 0 and r.random() < 0.15:
+                # the Jacobian vanishes at the start of the step (B_i = -A_i xh) while c(xh) does not: no stored
+                # entries, but the multiplier shift rho c still enters the Hessian
+                spec.B = [[-sum(a * v for a, v in zip(row, xh)) for row in Ai] for Ai in spec.A]
             kind = k % 4
             nk = r.randint(0, 2)
             tau = r.choice([None, None, None, 0.5, 1.0])
